@@ -3,10 +3,12 @@
 Streams
   quote-kernel      urllib.parse.quote(safe=...) / unquote(.., "werkzeug.url_quote") / the four _unquote_* partial
                     unquoters / the latin-1 dances  vs  Model.Url  (kernel validation; oracle: dance round trip)
-  iri-uri           iri_to_uri / uri_to_iri on URLs from the property's grammar vs the model on the components
-                    urlsplit yields (urlsplit / urlunsplit / IDNA computed here: opaque to the model);
+  urlsplit-kernel   urllib.parse.urlsplit / urlunsplit + SplitResult attributes vs Model.UrlSplit (kernel validation)
+  iri-uri           iri_to_uri / uri_to_iri on URL text from the property's grammar (plus off-grammar text,
+                    model only) vs the model on the whole text (ipaddress / NFKC / lower+IDNA evaluated here);
                     oracle: ASCII, idempotent, one-step fixpoints, nothing reserved or invalid is reinterpreted
   environ-roundtrip EnvironBuilder(path, query, base_url) -> Request.path / args / host / url (oracle only)
+  environ-kernel    EnvironBuilder(path, base_url, query_string=str) -> environ -> Request fields vs Model.UrlEnviron
   dispatcher        DispatcherMiddleware over mount tables x paths vs Model.Url.dispatch;
                     oracle: SCRIPT_NAME + PATH_INFO preserved, longest '/'-boundary mount chosen
 """
@@ -766,7 +768,8 @@ CHECK = Check(
     modules=["WzVerif.Props.C15"],
     streams=[QuoteKernel(), UrlsplitKernel(), IriUri(), EnvironRoundtrip(), EnvironKernel(), Dispatcher()],
     assumptions=[
-        "urllib.parse.urlsplit / urlunsplit (incl. tab/CR/LF and leading C0/space stripping, port validation, scheme lower-casing) and the IDNA codec are opaque: the harness splits with urllib, applies the IDNA step with the same calls the code makes, and hands components to the model; hosts that IDNA rejects and ports urlsplit rejects are outside the URL grammar",
+        "urllib.parse.urlsplit / urlunsplit and the SplitResult attributes (username, password, hostname, port incl. validation, TAB/CR/LF and leading C0/space stripping, scheme lower-casing, bracket checks) are modelled (Model/UrlSplit.lean) and validated by stream urlsplit-kernel; still opaque, evaluated by the harness with the same library calls and passed to the driver per URL: ipaddress validation of a bracketed host, the NFKC test of _checknetloc for non-ASCII netlocs, and hostname.lower() + IDNA codec / _decode_idna. The URL-text theorems assume the stated laws of these (HostLaws / AsciiHostLaws, shown satisfiable) and are for URLs of the grammar: scheme and host present, components in the %XX grammar, no raw delimiter in the userinfo",
+        "EnvironBuilder(path, base_url, query_string=<str>) -> environ -> Request.path / root_path / host / url is modelled end to end (Model/UrlEnviron.lean: builderEnviron, requestView, get_host, get_current_url) and validated by stream environ-kernel; proved: the path round trip (environ_path_roundtrip) and the F15c witness; the statement that Request.url denotes base + path + query is checked by the oracle of stream environ-roundtrip only",
         "urllib.parse.quote / unquote and bytes.decode with werkzeug's codec error handler are hand-modelled from CPython 3.12 (maximal-subpart error spans) and validated by stream quote-kernel, not verified",
         "the one-step fixpoint / round-trip claims (theorems and oracle) are for text whose every '%' starts a two-hex-digit escape (the property's '%XX' grammar); a bare '%' is only compared against the model, and the negation is proved on the witness '%%34%31'",
         "environ-roundtrip is stated for paths starting with one '/', without '%', '?', '#' (URL syntax for EnvironBuilder's path argument: these are interpreted, not transported); tab/CR/LF in the path are removed by urlsplit inside EnvironBuilder (known finding F15c); queries are arbitrary str mappings without lone surrogates; it is an oracle-only stream (EnvironBuilder, Request are not modelled beyond the dances and the safe sets)",
@@ -778,7 +781,7 @@ CHECK = Check(
 )
 
 MANIFEST = {
-    "level_text": "Machine-checked Lean 4 theorems about an executable model of urllib quote/unquote with werkzeug's error handler, iri_to_uri / uri_to_iri on split components, the latin-1 dances and DispatcherMiddleware's mount loop: quote output is ASCII for every input and idempotent for every safe set iri_to_uri uses (decide on the literals collected from the AST on every run), hence iri_to_uri is ASCII and idempotent component-wise; the dance round trip is lossless for every string; uri_to_iri is a fixpoint after one step on every component whose '%' all start '%XX' escapes (UTF-8 decoder with CPython's error spans modelled; keep tables evaluated from the live patterns); the dispatcher preserves SCRIPT_NAME+PATH_INFO and picks the longest '/'-boundary mount. IRI->URI->IRI is stable after one round for every component of that grammar (the model's UTF-8 decoder and Lean's encoder are proved mutually inverse); unquote inverts quote on text without '%', hence the path given to EnvironBuilder reaches Request.path unchanged through the dances. Tied to the code by differential streams; the query/host/url part of the EnvironBuilder/Request round trip is validated by an oracle stream only.",
+    "level_text": "Machine-checked Lean 4 theorems about an executable model of urllib quote/unquote with werkzeug's error handler, iri_to_uri / uri_to_iri on split components, the latin-1 dances and DispatcherMiddleware's mount loop: quote output is ASCII for every input and idempotent for every safe set iri_to_uri uses (decide on the literals collected from the AST on every run), hence iri_to_uri is ASCII and idempotent component-wise; the dance round trip is lossless for every string; uri_to_iri is a fixpoint after one step on every component whose '%' all start '%XX' escapes (UTF-8 decoder with CPython's error spans modelled; keep tables evaluated from the live patterns); the dispatcher preserves SCRIPT_NAME+PATH_INFO and picks the longest '/'-boundary mount. IRI->URI->IRI is stable after one round for every component of that grammar (the model's UTF-8 decoder and Lean's encoder are proved mutually inverse); unquote inverts quote on text without '%', hence the path given to EnvironBuilder reaches Request.path unchanged through the dances. urlsplit / urlunsplit are modelled too, and the component theorems are lifted to whole URL text for URLs of the grammar (iri_to_uri ASCII + idempotent; uri_to_iri one-step fixpoint; IRI->URI->IRI stable) under stated laws of the opaque IDNA / ipaddress / NFKC steps. Tied to the code by differential streams (incl. urlsplit-kernel and the end-to-end environ-kernel); that Request.url denotes base + path + query is validated by an oracle stream only.",
     "level_note": "Trusted: Lean kernel; extract.py; the correspondence harness; CPython urllib/codecs for modelled primitives. urlsplit/urlunsplit and IDNA are opaque. All DESIGN theorems (P0, P1) proved. Known finding F15c (EnvironBuilder drops TAB/CR/LF from the path); F15a / F15b were repaired in /repo (c7898ed, 319c4e1) and are regression cases of stream iri-uri.",
     "technique": "Lean 4 proof (induction over byte lists, decide over AST-collected literals and regenerated keep tables, loop invariant for the dispatcher) + model/code correspondence + property oracles",
     "design_ref": "DESIGN.md section 4, C15",
